@@ -114,6 +114,8 @@ def backend_corpus(seed, tier):
         gs.append(('ring%d' % i, gram.ring_grammar(rnd, nullable=bool(i % 2))))
     for i in range(1 if tier == 'quick' else 3):
         gs.append(('big%d' % i, gram.big_grammar(rnd)))
+    for i in range(1 if tier == 'quick' else 3):
+        gs.append(('wide%d' % i, gram.wide_grammar(rnd, nt=rnd.randint(56, 62))))
     n = 300 if tier == 'quick' else 3000
     for i in range(n):
         kind = i % 4
@@ -162,6 +164,8 @@ def i6_corpus(seed, tier):
         gs.append(('big%d' % i, genrun.fix_tags(gram.big_grammar(rnd, square=True))))
     for i in range(3 if tier == 'quick' else 15):
         gs.append(('dup%d' % i, genrun.fix_tags(gram.dup_rule_grammar(rnd))))
+    for i in range(3 if tier == 'quick' else 12):
+        gs.append(('opt%d' % i, genrun.fix_tags(gram.optional_grammar(rnd))))
     for i in range(10 if tier == 'quick' else 60):
         g = gram.random_usable(rnd, nT=rnd.randint(2, 4), nN=rnd.randint(1, 3), max_alts=4, p_term=0.7)
         gs.append(('tw%d' % i, gram.twin_actions(genrun.fix_tags(g), rnd)))
@@ -191,7 +195,7 @@ def i6_corpus(seed, tier):
         allins = list(dict.fromkeys(ins + sents + sorted(muts) + ['z', 'az', 'za']))
         jl = [('run', x) for x in allins]
         pool = allins[:60] + sents
-        for _ in range(3 if tier == 'quick' else 8):
+        for _ in range(8 if gname.startswith('opt') else (3 if tier == 'quick' else 8)):
             jl.append(('hist', ','.join(rnd.choice(pool) for _ in range(rnd.randint(2, 6)))))
         for x in (sents[:3] + ins[1:3]):
             jl.append(('trace', x))
@@ -397,6 +401,37 @@ def run_C07(ctx):
                 ctx.violation('counterexample', 'grammar %s variant %s input %r: the parser returns %s, evaluating the actions bottom-up over the parse tree gives %s'
                               % (gname, vn, payload, iv, mv), case_of(out, gname, variant=vn, input=payload, observed=raw, expected=ms), interface='I6')
     ctx.extra['shared_action_text_runs'] = ntw
+    # values computed while another parse is going on (a parse started from inside an action of another parse through
+    # PushContex/PopContex or on a second context) or after earlier parses on the same parser: the value of an accepted parse is
+    # the bottom-up evaluation of its own actions, so it must be the value the same input gives alone
+    nested = 0
+    for gname, byv in out['res'].items():
+        if gname.startswith('__'):
+            continue
+        for vn, rs in byv.items():
+            for (mode, payload), raw in rs.items():
+                if mode in ('nest', 'nestr'):
+                    a, b, k = payload.split(',')
+                    f = raw.split(' ; ')
+                    if len(f) != 2 or f[1] == '-':
+                        continue
+                    pairs = [(a, f[0]), (b, f[1])]
+                elif mode == 'hist':
+                    pairs = list(zip(payload.split(','), raw.split(' ; ')))
+                else:
+                    continue
+                for inp, got in pairs:
+                    alone = rs.get(('run', inp))
+                    if alone is None or not alone.startswith('A|'):
+                        continue
+                    nested += 1
+                    ctx.evaluations += 1
+                    if got != alone:
+                        ctx.violation('counterexample', 'grammar %s variant %s: the parse of %r, run %s, returns %s; the actions evaluated bottom-up over its parse tree give %s (what it returns alone)'
+                                      % (gname, vn, inp, 'while another parse is in progress (%s)' % mode if mode != 'hist' else 'after other parses on the same parser', got, alone),
+                                      case_of(out, gname, variant=vn, input=payload, mode=mode, observed=raw, expected=alone), interface='I6')
+                        break
+    ctx.extra['values_in_nested_and_repeated_parses'] = nested
     if not had_counterexample(ctx):
         vd = [d for d in i6_diffs(out) if 'value differs' in d['what']]
         report_corr(ctx, vd + backend_diffs_of_i6(out), {'I1', 'I6'}, 'C07')
